@@ -224,9 +224,12 @@ func NewFullRT(h host.Host, protocolPrefix protocol.ID, options ...Option) (*Ful
 
 	var bsPeers []*peer.AddrInfo
 
-	for _, ai := range dhtcfg.BootstrapPeers() {
-		tmpai := ai
-		bsPeers = append(bsPeers, &tmpai)
+	// BootstrapPeers is unset unless the caller passed a bootstrap option.
+	if dhtcfg.BootstrapPeers != nil {
+		for _, ai := range dhtcfg.BootstrapPeers() {
+			tmpai := ai
+			bsPeers = append(bsPeers, &tmpai)
+		}
 	}
 
 	rt := &FullRT{
